@@ -212,6 +212,13 @@ def build_catalogue():
                    lambda a: transform.compute_lla_difference(a['a'], a['b']), AF))
     C.append(Entry('transform.resample_state', lambda f: dict(s=traj_table(), t=A(100.0 + np.arange(0, 9.0, 0.37), f)),
                    lambda a: transform.resample_state(a['s'], a['t']), AF, schema=cols_are(TRAJ)))
+    # requested times in arbitrary order (the function sorts them for its result; the caller's array / index stays as it was)
+    C.append(Entry('transform.resample_state[unsorted times]',
+                   lambda f: dict(s=traj_table(), t=A(100.0 + np.array([7.5, 0.37, 3.1, 8.9, 1.2, 5.55]), f)),
+                   lambda a: transform.resample_state(a['s'], a['t']), AF, schema=cols_are(TRAJ)))
+    C.append(Entry('transform.resample_state[times = another table\'s index]',
+                   lambda f: dict(s=traj_table(), o=traj_table(11, 1.0).iloc[[4, 1, 7, 2]]),
+                   lambda a: transform.resample_state(a['s'], a['o'].index), schema=cols_are(TRAJ)))
     C.append(Entry('transform.compute_state_difference', lambda f: dict(a=traj_table(), b=traj_table(11, 1.0) + 0.01),
                    lambda a: transform.compute_state_difference(a['a'], a['b']), schema=cols_are(TERR)))
     C.append(Entry('transform.compute_state_difference[swapped]', lambda f: dict(a=traj_table(11, 1.0) + 0.01, b=traj_table()),
